@@ -1066,7 +1066,7 @@ func registerStubs(w *World) {
 			if nt.Form == NFBad {
 				return TupleV{FloatFromGo(0, 64), in.nativeErr(strconv.ErrSyntax)}
 			}
-			return TupleV{&FloatV{Cls: FFinite, Val: numTextValue(nt), Bits: 64, Lossy: true}, NilIface}
+			return TupleV{in.roundToFloat(nt), NilIface}
 		}
 		c, ok := in.concStr(s)
 		if !ok {
@@ -1355,6 +1355,25 @@ func registerStubs(w *World) {
 		in.unsupported("Decimal.MarshalJSON direct call")
 		return nil
 	}
+}
+
+// roundToFloat models strconv.ParseFloat of an abstract number text: the
+// result is an uninterpreted function of the exact value, constrained to be
+// exact where binary64 is exact (integers up to 2^53) and inexact for tenths
+// that are not halves - so a computation routed through binary floating point
+// cannot be proven equal to the exact decimal result.
+func (in *Interp) roundToFloat(nt *NumText) *FloatV {
+	v := numTextValue(nt)
+	f := UF("fl64", SReal, v)
+	lim := BigC(pow2[53])
+	switch nt.Scale {
+	case 0:
+		in.bg = append(in.bg, Implies(And(Le(Neg(lim), nt.K), Le(nt.K, lim)), Eq(f, v)))
+	case 1:
+		in.bg = append(in.bg, Implies(Not(Eq(EMod(nt.K, IntC(5)), IntC(0))), Not(Eq(f, v))))
+		in.bg = append(in.bg, Implies(Eq(EMod(nt.K, IntC(5)), IntC(0)), Eq(f, v)))
+	}
+	return &FloatV{Cls: FFinite, Val: f, Bits: 64, Lossy: true}
 }
 
 // forceDeep resolves all lazies reachable from v.
